@@ -520,6 +520,9 @@ var ambientArgs = []string{".", "0", "1", `"a"`, ".[0]?", "[.]", "(1,2)", "null"
 
 func render(v any) string {
 	if e, ok := v.(error); ok {
+		if ve, ok := e.(gojq.ValueError); ok { // error(v): the value is the observable, not the wording
+			return "EV:" + render(ve.Value())
+		}
 		return "E:" + e.Error()
 	}
 	b, err := gojq.Marshal(v)
